@@ -319,6 +319,7 @@ def generate(run_seed, fault_config="all", jit=False, max_ops=12, meta=None):
 # ------------------------------------------------------------------------------------
 
 ABSENT, ACKED, TORN = "absent", "acked", "torn"
+_OUTPUT_MEMO = {}
 
 
 class Execution:
@@ -485,15 +486,31 @@ class Execution:
             th = copy.deepcopy(c["theory"])
             ob = copy.deepcopy(c["obs"])
             ob["observables"] = {n: [cards.point_dict(p) for p in pts] for n, pts in c["observables"]}
-            self.sched.quiet += 1
-            try:
-                out = yadism.Runner(th, ob).get_result()
-            except Exception as e:  # noqa: BLE001 - a card the pinned environment rejects yields no output
-                self.skipped += 1
-                self.log(i, kind, "rejected", type(e).__name__)
-                return
-            finally:
-                self.sched.quiet -= 1
+            # producing the output is not under test here (fault-free, scheduler quiet); the
+            # enumeration tier re-executes one history hundreds of times, so the produced object
+            # is memoised per card and handed out as a deep copy
+            ckey = json.dumps(c, sort_keys=True)
+            if ckey in _OUTPUT_MEMO:
+                out = copy.deepcopy(_OUTPUT_MEMO[ckey])
+                if out is None:
+                    self.skipped += 1
+                    self.log(i, kind, "rejected")
+                    return
+            else:
+                self.sched.quiet += 1
+                try:
+                    out = yadism.Runner(th, ob).get_result()
+                except Exception as e:  # noqa: BLE001 - a card the pinned environment rejects yields no output
+                    out = None
+                finally:
+                    self.sched.quiet -= 1
+                if len(_OUTPUT_MEMO) >= 6:
+                    _OUTPUT_MEMO.pop(next(iter(_OUTPUT_MEMO)))
+                _OUTPUT_MEMO[ckey] = copy.deepcopy(out)
+                if out is None:
+                    self.skipped += 1
+                    self.log(i, kind, "rejected")
+                    return
             snap = snapshot(out)
             self.live[op["handle"]] = {"out": out, "snap": snap, "origin": "runner"}
             if any(isinstance(x, list) and len(x) == 0 for x in snap["obs"].values()):
@@ -798,3 +815,107 @@ def candidates(trace):
                 t = copy.deepcopy(trace)
                 t["outputs"][c]["theory"].update(upd)
                 yield f"simplify {c} {upd}", t
+
+
+# ------------------------------------------------------------------------------------
+# thorough tier: exhaustive single-fault enumeration over the ops of a short history
+# ------------------------------------------------------------------------------------
+
+ENUM_KINDS = {
+    "io_open": [{"do": "open_fail", "arg": "EMFILE"}, {"do": "crash"}],
+    "io_write": [{"do": "write_err", "arg": "EIO"}, {"do": "write_torn", "frac": 0.5},
+                 {"do": "short_write", "frac": 0.5}, {"do": "crash", "frac": 0.5}, {"do": "crash", "frac": 0.0}],
+    "io_read": [{"do": "read_err", "arg": "EIO"}, {"do": "short_read", "frac": 0.5}, {"do": "crash"}],
+    "mkdir": [{"do": "mkdir_fail", "arg": "ENOSPC"}, {"do": "crash"}],
+}
+
+
+def generate_enum_base(run_seed, jit=False):
+    """A short fault-free base history whose every I/O op will get every single fault."""
+    st = Streams(run_seed)
+    cfg, ops_rng = st["config"], st["ops"]
+    outputs = {"C0": gen_output_card(cfg), "C1": gen_output_card(cfg)}
+    fmt1 = ops_rng.choice(["tar", "yaml"])
+    fmt2 = ops_rng.choice(["tar", "yaml"])
+    p1 = {"tar": "a.tar", "yaml": "a.yaml"}[fmt1]
+    same_path = fmt1 == fmt2 and ops_rng.random() < 0.6
+    p2 = p1 if same_path else {"tar": "b.tar", "yaml": "b.yaml"}[fmt2]
+    d = {"tar": "dump_tar", "yaml": "dump_yaml_file"}
+    l = {"tar": "load_tar", "yaml": "load_yaml_file"}
+    ops = [
+        {"op": "make_output", "card": "C0", "handle": "H0"},
+        {"op": "make_output", "card": "C1", "handle": "H1"},
+        {"op": d[fmt1], "handle": "H0", "path": p1},
+        {"op": l[fmt1], "path": p1, "handle": "H2"},
+        # overwrite with another object, or re-dump the loaded object in the other format
+        {"op": d[fmt2], "handle": ops_rng.choice(["H1", "H2"]), "path": p2},
+        {"op": l[fmt2], "path": p2, "handle": "H3"},
+        {"op": l[fmt1], "path": p1, "handle": "H4"},
+        # liveness after the fault: a fault-free dump + load on the path that may be torn
+        {"op": d[fmt2], "handle": "H0", "path": p2},
+        {"op": l[fmt2], "path": p2, "handle": "H5"},
+    ]
+    for i, op in enumerate(ops):
+        op.update(id=i, client=0, faults=[])
+    return {"format": 1, "property": PROPERTY, "run_seed": int(run_seed), "fault_config": "enumerated",
+            "jit": bool(jit), "outputs": outputs, "ops": ops}
+
+
+def enum_run(run_seed, jit=False, max_cases=2000):
+    """Execute the base history, then one variant per (op, site, call index, fault kind)."""
+    import collections
+
+    base = generate_enum_base(run_seed, jit)
+    rep0 = execute(base, collect_states=True)
+    total = {"evaluations": 1, "fired": collections.Counter(), "probes": collections.Counter(rep0["probes"]),
+             "states": set(rep0["states"]), "transition_keys": set(rep0["transition_keys"]),
+             "steps": rep0["steps"], "site_totals": collections.Counter(rep0["site_totals"]),
+             "violations": [], "ops": rep0["ops"], "returned": rep0["returned"], "rejected": rep0["rejected"],
+             "interrupted": rep0["interrupted"], "enumerated_ops": 0, "single_fault_cases": 0,
+             "cases_fault_not_reached": 0, "digests": [rep0["digest"]], "truncated": False}
+    if rep0["violations"]:
+        total["violations"].append({"trace": base, "violation": rep0["violations"][0]})
+        return total
+    for j, op in enumerate(base["ops"][:7]):
+        if op["op"] not in DUMPS + LOADS:
+            continue
+        counts = rep0["per_op_sites"][j]
+        total["enumerated_ops"] += 1
+        for site, n in sorted(counts.items()):
+            for k in range(n):
+                for kind in ENUM_KINDS.get(site, []):
+                    if total["single_fault_cases"] >= max_cases:
+                        total["truncated"] = True
+                        return _enum_finish(total)
+                    t = copy.deepcopy(base)
+                    f = dict(kind)
+                    f.update(site=site, call=k)
+                    t["ops"][j]["faults"] = [f]
+                    rep = execute(t, collect_states=True)
+                    total["evaluations"] += 1
+                    total["single_fault_cases"] += 1
+                    if not rep["fired"]:
+                        total["cases_fault_not_reached"] += 1
+                    total["fired"].update(rep["fired"])
+                    total["probes"].update(rep["probes"])
+                    total["states"].update(rep["states"])
+                    total["transition_keys"].update(rep["transition_keys"])
+                    total["steps"] += rep["steps"]
+                    total["site_totals"].update(rep["site_totals"])
+                    total["digests"].append(rep["digest"])
+                    for key in ("ops", "returned", "rejected", "interrupted"):
+                        total[key] += rep[key]
+                    if rep["violations"] and len(total["violations"]) < 3:
+                        total["violations"].append({"trace": t, "violation": rep["violations"][0]})
+    return _enum_finish(total)
+
+
+def _enum_finish(total):
+    h = hashlib.sha256("".join(total.pop("digests")).encode()).hexdigest()
+    total["digest"] = h
+    total["fired"] = dict(total["fired"])
+    total["probes"] = dict(total["probes"])
+    total["site_totals"] = dict(total["site_totals"])
+    total["states"] = sorted(total["states"])
+    total["transition_keys"] = sorted(total["transition_keys"])
+    return total
